@@ -79,13 +79,49 @@ func storeChild(dir, reqFile string, limit int64, mode string) int {
 	return 0
 }
 
+// storeHash: real target hashes are 64-bit values, most of them not representable as a float64
+func storeHash(i, flavour int) uint64 {
+	if i%2 == 1 {
+		return 17270234181261464983 - uint64(i*7+flavour)
+	}
+	return uint64(1000 + i*7 + flavour)
+}
+
+// hashSetOf: the hashes of an assignment, sorted
+func hashSetOf(m map[string][]*target.Target) []uint64 {
+	out := []uint64{}
+	for _, ts := range m {
+		for _, t := range ts {
+			out = append(out, t.Hash)
+		}
+	}
+	sort.Slice(out, func(a, b int) bool { return out[a] < out[b] })
+	return out
+}
+
+// hashesSurvive reports a C15 violation when a restart changed the identity of a stored target
+func hashesSurvive(res *Result, stored, loaded map[string][]*target.Target, c StoreCase) {
+	a, b := hashSetOf(stored), hashSetOf(loaded)
+	if len(a) != len(b) {
+		return
+	}
+	for i := range a {
+		if a[i] != b[i] {
+			res.ImplViol = capViol(res.ImplViol, Violation{Property: "C15", Clause: "restart", Signature: "C15/restart",
+				What: fmt.Sprintf("after a sidecar restart the stored target with hash %d is loaded with hash %d: status, proxy routing and the coordinator no longer agree on its identity", a[i], b[i]),
+				Case: map[string]interface{}{"case": c}}, 2)
+			return
+		}
+	}
+}
+
 func mkTargets(r *Rng, n int, flavour int) map[string][]*target.Target {
 	m := map[string][]*target.Target{}
 	vals := []string{"plain", "with \"quotes\" and \\ backslash", "unié中文", "new\nline\ttab", "<>&{}[],:", ""}
 	for i := 0; i < n; i++ {
 		job := fmt.Sprintf("job-%d", i%3)
 		t := &target.Target{
-			Hash:        uint64(1000 + i*7 + flavour),
+			Hash:        storeHash(i, flavour),
 			Series:      int64(r.Intn(100000)),
 			TotalSeries: int64(r.Intn(100000)),
 			Labels: labels.FromStrings("__address__", fmt.Sprintf("10.0.%d.%d:9100", i/250, i%250), "__scheme__", "http",
@@ -278,6 +314,7 @@ func runStore(a Args) *Result {
 			li := storeLoad(probe)
 			_ = os.RemoveAll(probe)
 			res.Evaluations++
+			hashesSurvive(res, oldT, li.Targets, StoreCase{Old: oldT, HadOld: true, Mode: "none"})
 			if li.Err != "" || !sameTargets(li.Targets, oldT) || li.Idle != (na == 0) || (na == 0 && li.IdleUnix != 1700000000) {
 				res.ImplViol = capViol(res.ImplViol, Violation{Property: "C09", Clause: "roundtrip", Signature: "C09/roundtrip",
 					What: "a restart (one hour later) does not resume the acknowledged assignment and its idle-since time: " + li.Err, Case: map[string]interface{}{"case": StoreCase{Old: oldT, HadOld: true, Mode: "none"}}}, 3)
